@@ -325,6 +325,7 @@ func (w *Worker) chanClose(fr *frame, c *Chan) {
 
 func (w *Worker) selectOp(fr *frame, instr *ssa.Select) Value {
 	w.schedPoint("select")
+	firstWait := true
 	for {
 		chosen := -1
 		for i, st := range instr.States {
@@ -387,12 +388,16 @@ func (w *Worker) selectOp(fr *frame, instr *ssa.Select) Value {
 		// block: this goroutine now waits to receive on every receive case
 		for _, st := range instr.States {
 			if c, _ := fr.get(st.Chan).(*Chan); c != nil && st.Dir == types.RecvOnly {
-				if c.recvWait == 0 {
-					w.progress() // a waiting receiver enables a select-send elsewhere
+				if c.recvWait == 0 && firstWait {
+					// a newly waiting receiver enables a select-send elsewhere (only
+					// when it starts to wait: re-registering after a fruitless wake-up is
+					// not progress, or a real deadlock would never be recognised)
+					w.progress()
 				}
 				c.recvWait++
 			}
 		}
+		firstWait = false
 		w.yield(fmt.Sprintf("select at %s", fr.site(instr)))
 		for _, st := range instr.States {
 			if c, _ := fr.get(st.Chan).(*Chan); c != nil && st.Dir == types.RecvOnly {
@@ -511,10 +516,18 @@ func (w *Worker) realLock(what string, p *Value) {
 		}
 		w.block(func() bool { return st.writer == nil && st.readers == 0 }, what)
 		st.writer = w.curG
+		if w.E.UsesTryLock {
+			// a TryLock elsewhere can observe that the mutex is held: the holder
+			// may be preempted inside its critical section
+			w.schedPoint("locked")
+		}
 	case "RWMutex.RLock":
 		w.schedPoint(what)
 		w.block(func() bool { return st.writer == nil }, what)
 		st.readers++
+		if w.E.UsesTryLock {
+			w.schedPoint("rlocked")
+		}
 	case "Mutex.Unlock", "RWMutex.Unlock":
 		st.writer = nil
 		w.progress()
